@@ -12,19 +12,28 @@ import (
 
 func init() { register("C19", checkC19) }
 
-func checkC19(p *core.Program, r *core.Report) {
+func checkC19(p *core.Program, r *core.Report) { c19(p, r, "") }
+
+// c19 runs the C19 rules; with only != "" it decides just the re-announce rule (R1) and reports it under
+// that rule id (shared with C16.R6: what is on the network after a reconnect is the current TXT record).
+func c19(p *core.Program, r *core.Report, only string) {
 	ensureCallSites(p)
-	const R1 = "C19.R1 reannounce-reads-current-data"
+	R1 := "C19.R1 reannounce-reads-current-data"
+	if only != "" {
+		R1 = only
+	}
 	const R2 = "C19.R2 manual-shutdown-gate-atomic"
 	const R3 = "C19.R3 bookkeeping"
 	const R4 = "C19.R4 single-listener"
 	const R5 = "C19.R5 shutdown-handshake-not-behind-lock"
-	r.Explanation = "C19 (Avahi reconnect without stale or lost announcements): fault sequences are not static; decided clauses in mdns/avahi: (R1) the arguments of the Announce call on the reconnect path come from a load of the stored announcement data made under the provider mutex after the successful restart in the same loop iteration, not from data captured at disconnect time; (R2) the disconnect callback and the reconnect loop read the manual-shutdown flag under the mutex, and no store of false into that flag is reachable from the reconnect goroutine (only the public Start may clear it); (R3) Announce records the request before any early return, Unannounce clears it on all paths, Shutdown sets the manual-shutdown flag before it first releases the mutex; (R4) the listener goroutine is started only on the not-running edge with the flag set before the spawn, under the mutex; (R5) the goroutine that Shutdown hands its stop signal to (blocking send while holding the provider mutex) never acquires that mutex, so the handshake cannot deadlock. Not decided: fault sequences as such, re-resolution after reconnect."
-	r.Rule(R1, "Announce arguments on the reconnect path derive from a locked load of mdnsServiceData that is dominated by the restart call")
-	r.Rule(R2, "manualShutdown read under mux in callback/reconnect loop; no manualShutdown=false store reachable from the reconnect goroutine")
-	r.Rule(R3, "Announce stores mdnsServiceData before any return; Unannounce clears on all paths; Shutdown sets manualShutdown before the first Unlock")
-	r.Rule(R4, "go listener guarded by !listenerRunning, flag stored true before the spawn under mux")
-	r.Rule(R5, "locks held during a blocking channel hand-over are never acquired by the receiving goroutine")
+	if only == "" {
+		r.Explanation = "C19 (Avahi reconnect without stale or lost announcements): fault sequences are not static; decided clauses in mdns/avahi: (R1) the arguments of the Announce call on the reconnect path come from a load of the stored announcement data made under the provider mutex after the successful restart in the same loop iteration, not from data captured at disconnect time; (R2) the disconnect callback and the reconnect loop read the manual-shutdown flag under the mutex, and no store of false into that flag is reachable from the reconnect goroutine (only the public Start may clear it); (R3) Announce records the request before any early return, Unannounce clears it on all paths, Shutdown sets the manual-shutdown flag before it first releases the mutex; (R4) the listener goroutine is started only on the not-running edge with the flag set before the spawn, under the mutex; (R5) the goroutine that Shutdown hands its stop signal to (blocking send while holding the provider mutex) never acquires that mutex, so the handshake cannot deadlock. Not decided: fault sequences as such, re-resolution after reconnect."
+		r.Rule(R1, "Announce arguments on the reconnect path derive from a locked load of mdnsServiceData that is dominated by the restart call")
+		r.Rule(R2, "manualShutdown read under mux in callback/reconnect loop; no manualShutdown=false store reachable from the reconnect goroutine")
+		r.Rule(R3, "Announce stores mdnsServiceData before any return; Unannounce clears on all paths; Shutdown sets manualShutdown before the first Unlock")
+		r.Rule(R4, "go listener guarded by !listenerRunning, flag stored true before the spawn under mux")
+		r.Rule(R5, "locks held during a blocking channel hand-over are never acquired by the receiving goroutine")
+	}
 
 	prov := p.Named("mdns", "AvahiProvider")
 	fData := p.Field("mdns", "AvahiProvider", "mdnsServiceData")
@@ -173,6 +182,9 @@ func checkC19(p *core.Program, r *core.Report) {
 		r.Fail(R1, "restart call", p.Pos(reconnect.Pos()), "the reconnect goroutine never restarts the avahi connection")
 	}
 	// the re-announce is conditional on data being present (announcement active)
+	if only != "" {
+		return
+	}
 	// ---- R2
 	// the callback, the reconnect loop and the package-local helpers they call synchronously
 	readers := []*ssa.Function{}
@@ -316,6 +328,37 @@ func checkC19(p *core.Program, r *core.Report) {
 		r.Fail(R3, key, p.Pos(bad.Pos()), "Shutdown releases the mutex (or returns) before the manual-shutdown flag is set")
 	} else {
 		r.OK(R3, key, p.Pos(shutdown.Pos()), "flag set first")
+	}
+	// ---- R6: the browser is freed before the listener is told to stop
+	const R6 = "C19.R6 browser-freed-before-listener-stops"
+	r.Rule(R6, "in Shutdown the service browser is freed (ServiceBrowserFree) before the stop signal is handed to the listener: go-avahi dispatches browse results with a blocking send while holding its server mutex, which ServiceBrowserFree also takes - once the listener is gone a pending result blocks for ever with that mutex held and Shutdown hangs in ServiceBrowserFree")
+	{
+		isFree := func(in ssa.Instruction) bool {
+			c := core.Common(in)
+			return c != nil && c.IsInvoke() && c.Method.Name() == "ServiceBrowserFree"
+		}
+		nsend := 0
+		mdnsLocal := func(f *ssa.Function) bool { return p.PkgShort(f) == "mdns" && f.Blocks != nil }
+		for _, cs := range core.ExpandSites(shutdown, mdnsLocal, 2, func(in ssa.Instruction) bool {
+			snd, ok := in.(*ssa.Send)
+			if !ok {
+				return false
+			}
+			f, b := core.LoadedField(snd.Chan)
+			return f != nil && core.NamedOf(b.Type()) == prov
+		}) {
+			in := cs.In
+			nsend++
+			key := "stop signal of the listener in " + p.FnName(shutdown)
+			if precededBy(p, in.Parent(), in, isFree, 2) {
+				r.OK(R6, key, p.Pos(in.Pos()), "sent after the browser was freed")
+			} else {
+				r.Fail(R6, key, p.Pos(in.Pos()), "the listener is stopped before the service browser is freed: a browse result dispatched in between blocks inside go-avahi with its server mutex held, and ServiceBrowserFree - and with it Shutdown, holding the provider mutex - never returns")
+			}
+		}
+		if nsend == 0 {
+			r.Fail(R6, "stop signal of the listener", p.Pos(shutdown.Pos()), "Shutdown no longer hands a stop signal to the listener")
+		}
 	}
 	// ---- R4
 	nlisten := 0
